@@ -51,7 +51,7 @@ class DiskImageContentExtractor(DiskImageWorker):
         for i, side in enumerate(image.sides):
             listener.onBeginOfSide(i)
             sidePath = os.path.join(targetDir, f"side{i}")
-            os.makedirs(sidePath)
+            os.makedirs(sidePath, exist_ok=True)
             controller = FileSystemController(side)
             for entry in controller.listFiles():
                 file = entry.toDict()
